@@ -561,6 +561,63 @@ def aliased_nodes(ctx):
                  [str(t) for t in e.attributes], 'k="1" p:k="3"')
 
 
+def document_lookups(ctx):
+    """Lookups on a Document (getChild, getChildren, childAtPath, childrenAtPath) find what the same lookups find on
+    an element that holds the document's root as its only child - the Element lookups being the modelled ones."""
+    from suds.sax.document import Document
+    from suds.sax.element import Element
+    rng = ctx.rng
+    for _ in range(ctx.pick(120, 2500)):
+        world = World()
+        root = build(world, rand_spec(rng, 2))
+        for pfx, uri in (("p", U["p"]), ("q", rng.choice([U["q"], U["p"]]))):
+            if rng.random() < 0.6 and pfx not in root.nsprefixes:
+                root.addPrefix(pfx, uri)
+        names = []
+        for rp in {root.prefix, None, "p", "q"}:
+            rn = root.name if rp is None else "%s:%s" % (rp, root.name)
+            names.append(rn)
+            for ce in root.children[:3]:
+                for cp in {ce.prefix, None, "p"}:
+                    cn = ce.name if cp is None else "%s:%s" % (cp, ce.name)
+                    names.append("%s/%s" % (rn, cn))
+                    names.append("/%s/%s" % (rn, cn))
+        names.append("nosuch")
+        names.append("p:nosuch/item")
+        doc = Document(root)
+        tree = world.dump()[0]
+        for path in names:
+            meta = {"tree": tree, "path": path}
+            ctx.case(common.digest(meta), "/" in path or ":" in path)
+            try:
+                got = [doc.childAtPath(path), list(doc.childrenAtPath(path))]
+                if "/" not in path:
+                    got += [doc.getChild(path), list(doc.getChildren(path))]
+            except Exception as e:
+                got = "%s: %s" % (type(e).__name__, e)
+            wrapper = Element("verif-wrapper")
+            wrapper.nsprefixes = dict(root.nsprefixes)     # (a Document resolves the prefixes of a path at its root)
+            wrapper.children.append(root)
+            saved = root.parent
+            root.parent = wrapper
+            try:
+                want = [wrapper.childAtPath(path), list(wrapper.childrenAtPath(path))]
+                if "/" not in path:
+                    want += [wrapper.getChild(path), list(wrapper.getChildren(path))]
+            except Exception as e:
+                want = "%s: %s" % (type(e).__name__, e)
+            finally:
+                root.parent = saved
+
+            def ids(x):
+                if isinstance(x, list):
+                    return [ids(y) for y in x]
+                return None if x is None else (world.idof(x) if isinstance(x, Element) else repr(x))
+            if ids(got) != ids(want):
+                ctx.fail("a lookup on a Document differs from the same lookup on an element holding its root", meta,
+                         ids(got), ids(want))
+
+
 def kf_clone_attr_ns(f, k):
     """D21: the clone differs only in the namespace of attributes whose prefix is bound above the cloned node."""
     return f.get("what", "").startswith("clone is not equal") and f.get("masked_equal") is True
@@ -635,6 +692,7 @@ def run(ctx):
     attribute_histories(ctx)
     doctor_rule_reused(ctx)
     aliased_nodes(ctx)
+    document_lookups(ctx)
     if runs:
         ctx.sample({"forest": runs[0]["forest"], "ops": runs[0]["ops"][:4]})
     ctx.sample({"forest": [FIXED], "ops": [{"op": "detach", "n": 3}, {"op": "prune", "n": 1}]})
